@@ -138,7 +138,7 @@ fn gen(rng: &mut Rng, tier: Tier) -> Vec<Case> {
         let small = i % 4 != 0;
         let ty = rng.below(2);
         let nch = rng.range(1, 3) as usize;
-        let chroms: Vec<&str> = (0..nch).map(|_| *rng.pick(CHROMS)).collect();
+        let chroms: Vec<&str> = gen_chroms(rng, nch);
         let n = if i % 30 == 0 { 0 } else if small { rng.range(1, 6) as usize } else { rng.range(5, 60) as usize };
         let max = if small { 16 } else { 2000 };
         let base = if !small && rng.chance(1, 4) { u64::MAX - 100_000 } else { 0 };
